@@ -460,6 +460,10 @@ def t1_common(site):
                 return "source is a copy of the destination (clone): equal lengths"
             if src[0] == "call" and src[1].endswith("from_elem") and len(src[2]) == 2 and src[2][1][0] == "len" and canon(norm(src[2][1][1])) == canon(norm(dst)):
                 return "source is vec![_; len(destination)]: equal lengths"
+    if site.kind == "slice-api" and site.api and site.api.endswith("windows") or (site.kind == "slice-api" and site.api and site.api.rsplit("::", 1)[-1] in ("chunks", "chunks_exact")):
+        a = x.get("args") or []
+        if len(a) == 2 and a[1][0] == "c" and isinstance(a[1][1], int) and a[1][1] >= 1:
+            return "window / chunk size is the non-zero constant %d" % a[1][1]
     if site.kind == "slice-api" and site.api and "split_at" in site.api:
         a = x.get("args") or []
         if len(a) == 2:
